@@ -897,7 +897,12 @@ func (e *Exec) runDeferSet(fr *Frame, d deferred, st *State, g string) {
 	}
 	for _, rc := range ctr.Requires {
 		t := e.evalBool(rc, env)
-		f := "(forall ((" + qk + " " + string(d.ksort) + ")) (=> " + Sel(setTerm, qk) + " " + t + "))"
+		member := Sel(setTerm, qk)
+		if arr, ok := c.Args[0].Type().Underlying().(*types.Array); ok && d.ksort == ArrSort(SInt, SInt) {
+			// the set holds Go array values (normalised)
+			member = And("(arrnorm "+qk+" "+IntLit(arr.Len())+")", member)
+		}
+		f := "(forall ((" + qk + " " + string(d.ksort) + ")) (=> " + member + " " + t + "))"
 		e.Out.AddObl(&Obligation{Name: fmt.Sprintf("%s/deferred:%s/pre:%s", FuncKey(fr.fn), trimPkg(ctr.Key), rc.Label), Func: FuncKey(fr.fn), Kind: "pre", Label: rc.Label, Text: "for every deferred key: " + rc.Text, Src: rc.Src, Formula: Imp(g, f)})
 		e.assume(g, f)
 	}
